@@ -64,6 +64,8 @@ structure ShardState where
   accts : Accts := []
   gas : GasCost := {}
   active : Bool := false
+  /-- `selfmeta <shard> on`: this node is a metachain node (its coordinator's `SelfId` is the metachain id) -/
+  selfMeta : Bool := false
 deriving Inhabited
 
 structure World where
@@ -85,7 +87,7 @@ def World.payableFn (w : World) (a : Bytes) : PayAns :=
   | none => .yes
 
 def World.env (w : World) (s : Nat) (sh : ShardState) : Env :=
-  { self := s, nshards := w.nshards, payable := w.payableFn, dns := w.dns, nameChange := w.nameChange,
+  { self := if sh.selfMeta then metaShard else s, nshards := w.nshards, payable := w.payableFn, dns := w.dns, nameChange := w.nameChange,
     gas := sh.gas, active := sh.active }
 
 inductive CallStatus
